@@ -1,0 +1,37 @@
+//go:build verif
+
+// Package bcl is a verification-only facade (build tag "verif") that makes
+// internal/bcl/verifbcl importable from the external verification harness.
+// It adds no behaviour.
+package bcl
+
+import "github.com/pentops/j5/internal/bcl/verifbcl"
+
+type (
+	Tok         = verifbcl.Tok
+	Diag        = verifbcl.Diag
+	Ident       = verifbcl.Ident
+	Ref         = verifbcl.Ref
+	Value       = verifbcl.Value
+	Tag         = verifbcl.Tag
+	Comment     = verifbcl.Comment
+	Frag        = verifbcl.Frag
+	FmtDiff     = verifbcl.FmtDiff
+	Point       = verifbcl.Point
+	ParseResult = verifbcl.ParseResult
+	LspEdit     = verifbcl.LspEdit
+)
+
+var (
+	Lex                 = verifbcl.Lex
+	Fragments           = verifbcl.Fragments
+	ParseFile           = verifbcl.ParseFile
+	HumanStringOf       = verifbcl.HumanStringOf
+	Fmt                 = verifbcl.Fmt
+	FmtDiffs            = verifbcl.FmtDiffs
+	LspFormat           = verifbcl.LspFormat
+	TokenSource         = verifbcl.TokenSource
+	ReformatDescription = verifbcl.ReformatDescription
+	TokenNames          = verifbcl.TokenNames
+	Operators           = verifbcl.Operators
+)
